@@ -132,9 +132,10 @@ def _run_requests(ctx, case, w):
         else:
             txid = wu.fake_txid(case['rng'], n)
         last_conf = u['conf']
-        if nk:
-            # (utxo_add has no network argument; in a wallet with several networks the documented way to hand in an
-            # unspent output of one of them is utxos_update(utxos=..., networks=...))
+        if nk and (case['rng'] + n) % 2:
+            # in a wallet with several networks an unspent output of one of them is handed in through
+            # utxos_update(utxos=..., networks=...) or (every other time) through utxo_add, which has to find the
+            # network and account of the address itself
             w.utxos_update(utxos=[{'address': key.address, 'script': '', 'confirmations': u['conf'], 'output_n': out_n,
                                    'txid': txid, 'value': u['value']}], networks=nk['network'],
                            account_id=nk['account_id'], rescan_all=False)
